@@ -153,7 +153,7 @@ pub enum PskKind {
     /// a different 32-byte value
     Wrong,
     /// a value of the given (wrong) length
-    BadLen(u8),
+    BadLen(u32),
 }
 
 #[derive(Clone, Copy, Debug, Serialize, Deserialize, PartialEq)]
@@ -166,6 +166,8 @@ pub enum RekeyKind {
     ManualR(u8),
     /// install manual key `id` for both directions in one call
     ManualBoth(u8),
+    /// rekey_manually(None, None): nothing may change
+    ManualNone,
 }
 
 #[derive(Clone, Copy, Debug, Serialize, Deserialize, PartialEq)]
@@ -174,7 +176,7 @@ pub enum Op {
     Write { node: u8, plen: u32, pseed: u32, buf: Buf, nonce: NonceSel },
     /// read a message in whatever phase the node is in
     Read { node: u8, src: Src, mutation: Mutation, out: Buf, nonce: NonceSel },
-    SetPsk { node: u8, idx: u8, kind: PskKind },
+    SetPsk { node: u8, idx: u64, kind: PskKind },
     Convert { node: u8, stateless: bool },
     SetRecvNonce { node: u8, v: u64 },
     SetSendNonce { node: u8, v: u64 },
@@ -194,6 +196,8 @@ pub enum Op {
     GarbageBurst { node: u8, count: u32, len: u16, seed: u32 },
     /// `count` times: `node` writes a `plen`-byte message and its peer reads it in order
     TrafficBurst { node: u8, count: u32, plen: u16 },
+    /// `count` times: `node` rekeys its sending direction and its peer the matching receiving one
+    RekeyBurst { node: u8, count: u32 },
     /// marks the start of the fault-free epilogue (bookkeeping only)
     Epilogue,
 }
@@ -215,6 +219,7 @@ impl Op {
             Op::Keygen { .. } => "keygen",
             Op::GarbageBurst { .. } => "garbage-burst",
             Op::TrafficBurst { .. } => "traffic-burst",
+            Op::RekeyBurst { .. } => "rekey-burst",
             Op::Epilogue => "epilogue",
         }
     }
